@@ -47,7 +47,7 @@ ASSUMPTIONS = [
 def plan(tier):
     if tier == "thorough":
         return {"runs": 6000, "chunk": 8, "wall_budget": 3300, "resample": 6, "hang_s": 900}
-    return {"runs": 128, "chunk": 2, "wall_budget": 900, "resample": 4}
+    return {"runs": 192, "chunk": 2, "wall_budget": 900, "resample": 4}
 
 
 # ---------------------------------------------------------------------------
@@ -62,21 +62,37 @@ def gen_wl(rng, force=None):
         s = rng.choice(small)
         return {"kind": "specimen", "specimen": s[0], "fmt": rng.choice(["tpf", "agp"])}
     fasta = force == "fasta" or (force is None and r < 0.8)
+    rich = rng.random() < 0.15
     while True:
-        w = genmap.gen_workload(rng, fasta_backed=fasta, haps=rng.random() < 0.45)
+        w = genmap.gen_workload(rng, fasta_backed=fasta, haps=(rng.random() < 0.45) and not rich, rich_tags=rich)
         if w is not None:
             break
+    wl = _wl_dict(rng, fasta, w)
+    if rich:
+        wl["log_level"] = "DEBUG"
+    return wl
+
+
+def _wl_dict(rng, fasta, w):
     return {
         "kind": "fasta" if fasta else "tpf",
         "fmt": rng.choice(["fa", "agp", "agp", "tpf"]) if fasta else rng.choice(["tpf", "agp", "agp"]),
         "input": w["fasta"] if fasta else w["tpf"],
         "pretext": w["pretext_agp"],
         "prefix": rng.choice(["SUPER_", "SUPER_", "chr"]),
-        "log_level": rng.choice(["INFO", "INFO", "DEBUG", "WARNING"]),
+        "log_level": rng.choice(["INFO", "INFO", "DEBUG", "DEBUG", "WARNING"]),
     }
 
 
 def gen_case(rng, tier):
+    case = _gen_case(rng, tier)
+    if case["w1"].get("log_level") == "DEBUG" and "hash" not in case["dims"]:
+        # the DEBUG log prints tables built from tag sets: always look at it under other hash seeds
+        case["dims"] = sorted(case["dims"] + ["hash"])
+    return case
+
+
+def _gen_case(rng, tier):
     return {
         "w1": gen_wl(rng),
         "w2": gen_wl(rng),
@@ -281,7 +297,11 @@ class Ctx:
     # -- the dimensions ---------------------------------------------------------
     def dim_hash(self, ref):
         key = "w1"
-        seeds = self.case["seeds"] if self.tier == "thorough" else self.case["seeds"][:2] if len(self.case["dims"]) > 3 else self.case["seeds"]
+        seeds = list(self.case["seeds"])
+        if self.case["w1"].get("log_level") == "DEBUG" or self.tier == "thorough":
+            # a two-element set comes out in the same order under two hash seeds
+            # half of the time: look at more of them where sets are printed
+            seeds = sorted(set(seeds + [3, 4, 5]))
         for seed in seeds:
             outd = self.new_out()
             ind = self.stage(key)[0]
@@ -316,21 +336,25 @@ class Ctx:
             return
         from tola.fasta import index as index_mod
 
-        b = self.case["buf"]
-        self._drop_cache("w1")
-        d1 = index_mod.FastaIndex.__init__.__defaults__
-        d2 = index_mod.index_fasta_file.__defaults__
-        index_mod.FastaIndex.__init__.__defaults__ = (b,)
-        index_mod.index_fasta_file.__defaults__ = (b,)
-        try:
-            got = self.run_p2a("w1")
-        finally:
-            index_mod.FastaIndex.__init__.__defaults__ = d1
-            index_mod.index_fasta_file.__defaults__ = d2
-        self.compare("buffer", ref, got, f"stream buffer size {b} (cold cache) vs the default")
-        # the cache it wrote is now read back by a default-buffer run
-        got2 = self.run_p2a("w1")
-        self.compare("buffer", ref, got2, f"default buffer reading the cache written with buffer size {b}")
+        for b in sorted({1, self.case["buf"]}):
+            # (with buffer 1 the indexer flushes after every line, with the seeded
+            # size somewhere inside the records)
+            self._drop_cache("w1")
+            d1 = index_mod.FastaIndex.__init__.__defaults__
+            d2 = index_mod.index_fasta_file.__defaults__
+            index_mod.FastaIndex.__init__.__defaults__ = (b,)
+            index_mod.index_fasta_file.__defaults__ = (b,)
+            try:
+                got = self.run_p2a("w1")
+            finally:
+                index_mod.FastaIndex.__init__.__defaults__ = d1
+                index_mod.index_fasta_file.__defaults__ = d2
+            if not self.compare("buffer", ref, got, f"stream buffer size {b} (cold cache) vs the default"):
+                return
+            # the cache it wrote is now read back by a default-buffer run
+            got2 = self.run_p2a("w1")
+            if not self.compare("buffer", ref, got2, f"default buffer reading the cache written with buffer size {b}"):
+                return
         self.classify("buffer", "w1", ref)
 
     def dim_warm(self, ref):
